@@ -181,6 +181,7 @@ ShapesTable == {<<2>>, <<3>>, <<2, 2>>, <<2, 2, 2>>}
 ShapesAlert == {<<2>>, <<3>>, <<2, 2>>}
 ShapesTableQ == {<<3>>, <<2, 2>>}
 ShapesOne == {<<2>>}
+ShapesOne3 == {<<3>>}
 ShapesEpicQ == {<<2>>, <<3>>, <<2, 2>>}
 ShapesXo == {<<2, 2>>}
 ShapesEpic == {<<2>>, <<3>>, <<2, 2>>, <<1, 2>>, <<2, 1>>, <<2, 2, 2>>}
